@@ -215,6 +215,8 @@ def normalize_receipts(reply):
             logs.append(('log', r['ra'], r['rb'], r['rc'], r['rd']))
         elif k == 'log_data':
             logs.append(('logd', r['ra'], r['rb'], list(bytes.fromhex(r['data']))))
+        elif k == 'message_out':
+            logs.append(('smo', 0, r['amount'], list(bytes.fromhex(r['recipient'])) + list(bytes.fromhex(r['data']))))
         elif k == 'return' and outcome is None:
             outcome = {'kind': 'return', 'value': r['val']}
         elif k == 'return_data' and outcome is None:
